@@ -77,6 +77,9 @@ type c19Case struct {
 	CtxAbs   int `json:"ctx_abs,omitempty"`
 	CtxIdx   int `json:"ctx_idx,omitempty"`
 	CtxDelta int `json:"ctx_delta,omitempty"`
+	// fault: the k-th tokenizer call of the prompt construction fails (0 = never). A prompt built in spite of it must
+	// still be the right one; otherwise the failure has to surface as an error (TestC19ChatPrompt only)
+	TokFail int `json:"tok_fail,omitempty"`
 }
 
 const c19KnownSysBeforeLast = "sys-before-last-dropped"
@@ -249,6 +252,9 @@ func c19Gen(t *rapid.T) c19Case {
 	}
 	c.Msgs = rapid.SliceOfN(rapid.Custom(func(t *rapid.T) c19Msg { return c19GenMsg(t, roles) }), 1, 12).Draw(t, "msgs")
 	c.CtxAbs, c.CtxIdx, c.CtxDelta = c19GenCtx(t, len(c.Msgs))
+	if rapid.IntRange(0, 7).Draw(t, "has_tok_fail") == 0 {
+		c.TokFail = rapid.IntRange(1, 6).Draw(t, "tok_fail")
+	}
 	return c
 }
 
@@ -917,7 +923,29 @@ func c19Run(c c19Case, o c19Opts) (info c19Info, err error) {
 	}
 	// the code under test
 	in := ref.build()
-	prompt, images, cerr := chatPrompt(context.Background(), ref.m, c19Tokenize, &api.Options{Runner: api.Runner{NumCtx: ref.ctx}}, in, nil)
+	calls, hit := 0, false
+	tok := func(ctx context.Context, s string) ([]int, error) {
+		calls++
+		if c.TokFail > 0 && calls == c.TokFail {
+			hit = true
+			return nil, errors.New("harness: tokenizer fault (runner not responding)")
+		}
+		return c19Tokenize(ctx, s)
+	}
+	prompt, images, cerr := chatPrompt(context.Background(), ref.m, tok, &api.Options{Runner: api.Runner{NumCtx: ref.ctx}}, in, nil)
+	if hit {
+		info.classes = append(info.classes, "tokenizer_fault_hit")
+		if cerr != nil {
+			info.classes = append(info.classes, "tokenizer_fault_surfaced")
+			return info, nil // the request fails: no prompt was built from a conversation the tokenizer could not size
+		}
+		// a prompt was built although sizing failed: it is judged like any other
+		info, err = c19Judge(ref, o, info, "chatPrompt", prompt, images, cerr)
+		if err != nil {
+			err = fmt.Errorf("tokenizer call %d failed, chatPrompt reported no error, and: %v", c.TokFail, err)
+		}
+		return info, err
+	}
 	return c19Judge(ref, o, info, "chatPrompt", prompt, images, cerr)
 }
 
